@@ -56,6 +56,7 @@ func factsC07(r *Repo) []Fact {
 		out = append(out, unknownFact("branchPassthroughGuarded", "Bool", "false", "compose", "method graph.addBranch not found"))
 		out = append(out, unknownFact("branchPropagates", "Bool", "false", "compose", "method graph.addBranch not found"))
 		out = append(out, unknownFact("branchMayInstallsConverter", "Bool", "false", "compose", "method graph.addBranch not found"))
+		out = append(out, unknownFact("branchCheckedWithoutData", "Bool", "false", "compose", "method graph.addBranch not found"))
 	} else {
 		recv := c20Recv(fd)
 		assignIdx, guarded, found := -1, false, false
@@ -121,6 +122,22 @@ func factsC07(r *Repo) []Fact {
 			return true
 		})
 		out = append(out, boolFact("branchMayInstallsConverter", conv, where+": `else if result == assignableTypeMay { … branch.inputConverter … }`"))
+		// the condition type check is a statement of the function body itself – `result :=
+		// checkAssignable(…, branch.inputType)` – standing before the test of skipData: it runs for
+		// a branch that hands its input on and for one that does not (Workflow) alike
+		uncond := false
+		for _, s := range fd.Body.List {
+			if is, ok := s.(*ast.IfStmt); ok && strings.Contains(exprString(is.Cond), "skipData") {
+				break
+			}
+			if as, ok := s.(*ast.AssignStmt); ok && len(as.Rhs) == 1 {
+				if call, ok := as.Rhs[0].(*ast.CallExpr); ok && exprString(call.Fun) == "checkAssignable" &&
+					len(call.Args) == 2 && exprString(call.Args[1]) == "branch.inputType" {
+					uncond = true
+				}
+			}
+		}
+		out = append(out, boolFact("branchCheckedWithoutData", uncond, where+": `result := checkAssignable(g.getNodeOutputType(startNode), branch.inputType)` as a statement of the function body, before `if !skipData`"))
 	}
 
 	// updateToValidateMap: inference only into unknown types; converter on may edges
